@@ -176,7 +176,8 @@ fn ref_text(s: &str) -> Option<Option<Vec<u8>>> {
     };
     if !name_ok(owner) { return None; }
     let ttl: u32 = match toks[1].parse::<u64>() { Ok(v) if v <= u32::MAX as u64 && toks[1].bytes().all(|c| c.is_ascii_digit()) => v as u32, _ => return if toks[1].bytes().all(|c| c.is_ascii_digit()) { Some(None) } else { None } };
-    if !toks[2].eq_ignore_ascii_case("IN") { return None; }
+    // a class other than IN (any other purely alphabetic word) is an error
+    if !toks[2].eq_ignore_ascii_case("IN") { return if toks[2].bytes().all(|c| c.is_ascii_alphabetic()) { Some(None) } else { None }; }
     let t = toks[3].to_ascii_uppercase();
     let rest = &toks[4..];
     let num = |x: &str, max: u64| -> Option<u64> { if !x.is_empty() && x.bytes().all(|c| c.is_ascii_digit()) && x.len() < 15 { x.parse::<u64>().ok().filter(|v| *v <= max) } else { None } };
@@ -187,7 +188,10 @@ fn ref_text(s: &str) -> Option<Option<Vec<u8>>> {
         "A" => { if rest.len() != 1 { return Some(None); }
                  let p: Vec<&str> = rest[0].split('.').collect();
                  if p.len() != 4 { return None; }
-                 let mut ip = vec![]; for x in p { match num(x, 255) { Some(v) if x.len() <= 3 && !(x.len() > 1 && x.starts_with('0')) => ip.push(v as u8), _ => return None } }
+                 let mut ip = vec![]; for x in p { match num(x, 255) { Some(v) if x.len() <= 3 && !(x.len() > 1 && x.starts_with('0')) => ip.push(v as u8),
+                     // a component that is a plain number above 255 is an error (other odd shapes: no opinion)
+                     None if !x.is_empty() && x.len() < 10 && x.bytes().all(|c| c.is_ascii_digit()) && !x.starts_with('0') => return Some(None),
+                     _ => return None } }
                  wire(1, Some(ip)) }
         "NS" | "CNAME" | "PTR" => { if rest.len() != 1 { return Some(None); } if !name_ok(rest[0]) { return None; }
                  let rt = match t.as_str() { "NS" => 2, "CNAME" => 5, _ => 12 };
@@ -210,11 +214,14 @@ fn ref_text(s: &str) -> Option<Option<Vec<u8>>> {
         "DS" => { if rest.len() != 4 { return None; }
                  let kt = num(rest[0], 65535)?; let alg = num(rest[1], 255)?; let dt = num(rest[2], 255)?;
                  let h = rest[3];
-                 if !h.bytes().all(|c| c.is_ascii_hexdigit()) { return None; }
+                 // a digest with a character that is not a hex digit is an error (when it is made of letters and digits only; other shapes: no opinion)
+                 if !h.bytes().all(|c| c.is_ascii_hexdigit()) { return if h.bytes().all(|c| c.is_ascii_alphanumeric()) { Some(None) } else { None }; }
                  if h.len() % 2 != 0 { return Some(None); }
                  let mut rd = vec![(kt >> 8) as u8, kt as u8, alg as u8, dt as u8]; rd.extend(unhex(&h.to_ascii_lowercase()).ok()?);
                  wire(43, Some(rd)) }
-        _ => None,
+        "AAAA" => None,
+        // a type keyword outside the nine supported ones is an error
+        _ => if t.bytes().all(|c| c.is_ascii_alphabetic()) { Some(None) } else { None },
     }
 }
 
@@ -317,7 +324,11 @@ pub fn gen(prop: &str, r: &mut Rng) -> Vec<String> {
             let kw = |r: &mut Rng, s: &str| -> String { s.chars().map(|c| if r.chance(1, 2) { c.to_ascii_lowercase() } else { c }).collect() };
             // numbers: half of the time a value at or next to the limit of the field (max = largest value the field holds)
             let num = |r: &mut Rng, max: u64| -> u64 { if r.chance(1, 2) { *r.pick(&[0, 1, max / 2, max - 1, max, max + 1, max * 2 + 1]) } else { r.below(max + max / 16 + 2) } };
-            let body = match r.below(10) {
+            let body = match r.below(11) {
+                10 => match r.below(3) {
+                    0 => { let t = *r.pick(&["SRV", "NAPTR", "ANY", "AXFR"]); format!("{} {}", kw(r, t), hn(r)) }                       // a type outside the nine supported ones
+                    1 => format!("{}{}{} {} {} {}g{}", kw(r, "DS"), ws(r), num(r, 65535), num(r, 255), num(r, 255), hex(&r.bytes(2)), hex(&r.bytes(1))),   // a non-hex digit in the digest
+                    _ => format!("{}{}{}", kw(r, "A"), ws(r), (0..4).map(|i| if i == 2 { (256 + r.below(800)).to_string() } else { r.below(256).to_string() }).collect::<Vec<_>>().join(".")) },
                 9 => { // TXT with a few escapes: valid (\\000, \\065, \\255), out of range (\\256, \\300, \\999), too short (\\25), escaped quote
                        let k = 1 + r.below(4) as usize;
                        let inner: String = (0..k).map(|_| *r.pick(&["a", "bc", " ", "\\000", "\\065", "\\255", "\\256", "\\300", "\\999", "\\25", "\\\"", "7", "\\2555"])).collect();
@@ -332,7 +343,8 @@ pub fn gen(prop: &str, r: &mut Rng) -> Vec<String> {
                 7 => format!("{}{}{}", kw(r, "TXT"), ws(r), (0..r.below(6)).map(|_| *r.pick(&['a', '\\', '1', '9', '"'])).collect::<String>()),
                 _ => { let k = *r.pick(&["MX", "SOA", "DS", "A", "NS"]); format!("{} {}", kw(r, k), hn(r)) }
             };
-            let mut text = format!("{}{}{}{}{}{}{}", owner, ws(r), ttl, ws(r), kw(r, "IN"), ws(r), body);
+            let class = if r.chance(1, 25) { let c = *r.pick(&["CH", "HS", "ANY", "INN", "I"]); kw(r, c) } else { kw(r, "IN") };
+            let mut text = format!("{}{}{}{}{}{}{}", owner, ws(r), ttl, ws(r), class, ws(r), body);
             if r.chance(1, 6) { let n = r.below(text.len() as u64 + 1) as usize; if text.is_char_boundary(n) { text.truncate(n); } }
             if r.chance(1, 8) { text.push_str(" extra"); }
             vec!["c13".into(), "text".into(), hex(text.as_bytes())]
